@@ -1090,8 +1090,8 @@ class Interp:
         vals = [self.eval(el, env) for el in n.elts]
         if all(is_concrete(v) for v in vals):
             return set(vals)
-        if len(vals) == 1 and not is_z3(vals[0]):
-            # {x}: a one-element set of a modelled object (identity hashing is exact for a single element)
+        if len(vals) == 1:
+            # {x}: a one-element set of a modelled object or symbolic value (identity hashing is exact for a single element)
             try:
                 return {vals[0]}
             except TypeError:
